@@ -19,8 +19,8 @@
    absent (C03's statement; C02_empty_value_reads_absent) - attrs_wf asks for non-empty objects. *)
 From Coq Require Import List String NArith Bool.
 From FIM Require Import Base.Str Model.Sliver2Kinds Gen.PropMap Model.Sliver2Map Model.Sliver2WF
-  Model.Sliver2Deep Model.Sliver2DeepWF Model.Sliver2Graph Model.Sliver2GraphWF Proofs.Sliver2DeepRT
-  Proofs.Sliver2Tables.
+  Model.Sliver2Deep Model.Sliver2DeepWF Model.Sliver2Graph Model.Sliver2GraphWF Proofs.Sliver2Multi
+  Proofs.Sliver2DeepRT Proofs.Sliver2Tables.
 Import ListNotations.
 
 (* the translator recognised every statement of the conversion functions (fail-closed flag) *)
@@ -85,24 +85,103 @@ Theorem C02_graph_roundtrip : forall t, graph_wf t = true -> graph_roundtrip t =
 Proof. exact graph_roundtrip_thm. Qed.
 Print Assumptions C02_graph_roundtrip.
 
-(* GET AFTER SET, every element class, every settable property written by a statement of its own:
-   reading back returns what the setter stores (stored), which is the argument itself for every setter
-   but set_management_ip (C02_set_get_same). *)
+(* THE SAME INTO ANY GRAPH (what add_*_sliver is used for in practice): the graph is well-formed
+   (distinct node ids, edges between its nodes), the tree's node ids are fresh in it, and the tree is
+   written stand-alone or under an existing node of a class that owns such slivers (parent_ok: a
+   component under a node; a service under a node or component; an interface under a service, or - a leaf
+   that is not a DedicatedPort - under an interface).  Then the writer succeeds, the tree is rebuilt
+   identical, and the rest of the graph is untouched (frame): the graph stays well-formed, its node ids are
+   the old ones followed by the tree's, every old node keeps its record, and every old node except the
+   parent keeps its neighbours for every relation and class. *)
+Theorem C02_graph_under : forall g parent t,
+  good_graph g = true -> graph_wf_sub t = true -> fresh_in g t = true -> parent_ok g parent t = true ->
+  exists g', add_under g parent t = Ok g' /\
+    build_deep g' (t_kind t) (id_of t) = Ok t /\
+    good_graph g' = true /\
+    gids g' = gids g ++ map id_of (subtrees t) /\
+    (forall x, In x (gids g) -> find_node g' x = find_node g x) /\
+    (forall x rel L, In x (gids g) -> parent <> Some x ->
+                     get_first_neighbor g' x rel L = get_first_neighbor g x rel L).
+Proof. exact graph_under. Qed.
+Print Assumptions C02_graph_under.
+
+(* GET AFTER SET, every element class, every settable property, every value the setter accepts and
+   the graph form can carry (value_ok: decidable; it is false exactly for a lone image_ref / image_type,
+   see C02_set_get_image_ref_refuted): reading back returns what the setter stores, which is the
+   argument itself for every setter but set_management_ip (C02_set_get_same). *)
 Theorem C02_set_get : forall k p v d x,
-  settable k p = Some x -> single_written k x = true -> value_ok k p v = true -> readable k d = true ->
+  settable k p = Some x -> value_ok k p v = true -> readable k d = true ->
   exists d', set_property k p (Some v) d = Ok d' /\ get_property k p d' = Ok (stored k p v).
 Proof. exact set_get. Qed.
 Print Assumptions C02_set_get.
 
 Theorem C02_set_get_same : forall k p v d x,
-  settable k p = Some x -> single_written k x = true -> stores_argument k p = true ->
+  settable k p = Some x -> stores_argument k p = true ->
   value_ok k p v = true -> readable k d = true ->
   exists d', set_property k p (Some v) d = Ok d' /\ get_property k p d' = Ok (Some v).
 Proof. exact set_get_same. Qed.
 Print Assumptions C02_set_get_same.
 
-(* the two halves of the image pair are NOT single_written: set_property('image_ref', v) is a silent no-op *)
+(* FRAME: setting p leaves every other settable property as it was (except the stitch_node flag,
+   which every write resets: always_written) *)
+Theorem C02_set_frame : forall k p v d x q y,
+  settable k p = Some x -> value_ok k p v = true -> readable k d = true ->
+  settable k q = Some y -> y <> x -> aget y (blank k) = None -> always_written k y = false ->
+  exists d', set_property k p (Some v) d = Ok d' /\ get_property k q d' = get_property k q d.
+Proof. exact set_frame. Qed.
+Print Assumptions C02_set_frame.
+
+(* SET_PROPERTIES with any number of keywords (l' = the keyword list after Node._complete_image_pair,
+   which is l itself on the current tree: C02_no_pair_completion): every keyword reads back as stored,
+   every other property as before, and the node stays readable *)
+Theorem C02_set_properties_get : forall k l l' d,
+  completed_kvs node_completes_image_pair k l d = Ok l' ->
+  kws_ok k l' = true -> values_ok k l' = true -> readable k d = true ->
+  exists d', set_properties k l d = Ok d' /\ readable k d' = true /\
+    (forall p v x, In (p, Some v) l' -> settable k p = Some x -> get_property k p d' = Ok (stored k p v)) /\
+    (forall q y, settable k q = Some y -> ~ In y (kw_targets k l') -> aget y (blank k) = None ->
+                 always_written k y = false -> get_property k q d' = get_property k q d).
+Proof. exact set_properties_get. Qed.
+Print Assumptions C02_set_properties_get.
+
+Theorem C02_no_pair_completion : node_completes_image_pair = false.
+Proof. exact node_completes_false. Qed.
+Print Assumptions C02_no_pair_completion.
+
+(* the order of the keywords is irrelevant: the same node properties result (for keyword lists that
+   need no completion - on the current tree every list: C02_no_pair_completion) *)
+Theorem C02_set_properties_order : forall k l l2 d d1,
+  completed_kvs node_completes_image_pair k l d = Ok l ->
+  completed_kvs node_completes_image_pair k l2 d = Ok l2 ->
+  kws_ok k l = true -> Permutation.Permutation l l2 ->
+  set_properties k l d = Ok d1 -> set_properties k l2 d = Ok d1.
+Proof. exact set_properties_order. Qed.
+Print Assumptions C02_set_properties_order.
+
+(* one set_properties call is, for every settable property q read afterwards, the same as setting the
+   keywords one after the other with set_property (plain keywords: kw_plain excludes the stitch_node flag,
+   for which the two differ - C02_stitch_node_fold_refuted) *)
+Theorem C02_set_properties_is_fold : forall k (l : list (string * fval)) d,
+  forallb (kw_plain k) l = true -> kws_ok k (opt_kvs l) = true -> values_ok k (opt_kvs l) = true ->
+  readable k d = true ->
+  exists df dm, set_each_actual k l d = Ok df /\ set_properties k (opt_kvs l) d = Ok dm /\
+    forall q y, settable k q = Some y -> aget y (blank k) = None -> always_written k y = false ->
+                get_property k q df = get_property k q dm.
+Proof. exact set_properties_is_fold. Qed.
+Print Assumptions C02_set_properties_is_fold.
+
+Theorem C02_stitch_node_fold_refuted :
+  exists df dm,
+    set_each_actual KNode [("stitch_node", FBool true); ("site", FStr (S"UKY"))]%string w_node_props = Ok df /\
+    set_properties KNode [("stitch_node", Some (FBool true)); ("site", Some (FStr (S"UKY")))]%string w_node_props = Ok dm /\
+    get_property KNode "stitch_node" df = Ok (Some (FBool false)) /\
+    get_property KNode "stitch_node" dm = Ok (Some (FBool true)).
+Proof. exact stitch_fold_refuted. Qed.
+Print Assumptions C02_stitch_node_fold_refuted.
+
+(* a lone half of the image pair is not value_ok: set_property('image_ref', v) is a silent no-op *)
 Theorem C02_set_get_image_ref_refuted :
+  value_ok KNode "image_ref" (FStr (S"img")) = false /\
   readable KNode w_node_props = true /\
   exists d', set_property KNode "image_ref" (Some (FStr (S"img"))) w_node_props = Ok d' /\
              get_property KNode "image_ref" d' = Ok None.
@@ -110,10 +189,18 @@ Proof. exact image_ref_alone_refuted. Qed.
 Print Assumptions C02_set_get_image_ref_refuted.
 
 (* GET AFTER UNSET, every element class, every property SLIVER_PROPERTY_TO_GRAPH maps to a graph
-   property that may be removed: reads None. *)
-Theorem C02_unset_get : forall k p d x g,
+   property that may be removed: reads the absent value unset_reads, which is None (for a boolean flag
+   with an unset mapping - none on the current tree - its default False). *)
+Theorem C02_unset_get_value : forall k p d x g,
   settable k p = Some x -> alookup p sliver_property_to_graph = Some g ->
   mem g no_unset_properties = false -> readable k d = true ->
+  exists d', set_property k p None d = Ok d' /\ get_property k p d' = Ok (unset_reads k x).
+Proof. exact unset_get. Qed.
+Print Assumptions C02_unset_get_value.
+
+Theorem C02_unset_get : forall k p d x g,
+  settable k p = Some x -> alookup p sliver_property_to_graph = Some g ->
+  mem g no_unset_properties = false -> readable k d = true -> String.eqb p "stitch_node" = false ->
   exists d', set_property k p None d = Ok d' /\ get_property k p d' = Ok None.
 Proof. exact unset_get_absent. Qed.
 Print Assumptions C02_unset_get.
@@ -145,6 +232,18 @@ Example C02_graph_nonvacuous :
   graph_wf w_tree = true /\ graph_roundtrip w_tree = Ok w_tree /\ List.length (subtrees w_tree) = 5%nat.
 Proof. exact graph_example. Qed.
 
+(* a component with a service and a port is added under the node of the graph that holds w_tree: the
+   hypotheses of C02_graph_under hold, the new component is rebuilt, the node now has two components,
+   the old one is rebuilt as before *)
+Example C02_graph_under_nonvacuous :
+  good_graph w_graph1 = true /\ graph_wf_sub w_comp2 = true /\ fresh_in w_graph1 w_comp2 = true /\
+  parent_ok w_graph1 (Some (S"n1")) w_comp2 = true /\ List.length (g_nodes w_graph1) = 5%nat /\
+  exists g2, add_under w_graph1 (Some (S"n1")) w_comp2 = Ok g2 /\
+    build_deep g2 KComponent (S"c9") = Ok w_comp2 /\
+    get_first_neighbor g2 (S"n1") rel_has (class_label KComponent) = Ok [S"c1"; S"c9"] /\
+    build_deep g2 KComponent (S"c1") = Ok w_comp.
+Proof. exact graph_under_example. Qed.
+
 Example C02_deep_nonvacuous :
   tree_wf w_tree = true /\ bind (to_dict w_tree) (from_dict KNode) = Ok (forget_ids w_tree)
   /\ forget_ids w_tree <> T KNode None [] None None None.
@@ -157,7 +256,7 @@ Proof. exact fresh_service_roundtrip. Qed.
 
 (* real values satisfy the hypotheses of the element theorems *)
 Example C02_element_nonvacuous :
-  settable KNode "site" = Some "site"%string /\ single_written KNode "site" = true /\
+  settable KNode "site" = Some "site"%string /\
   value_ok KNode "site" (FStr (S"UKY")) = true /\ readable KNode w_node_props = true /\
   stores_argument KNode "site" = true /\
   value_ok KNode "management_ip" (FStr (S"10.0.0.1")) = true /\
@@ -174,6 +273,23 @@ Example C02_image_pair_set_together :
              get_property KNode "image_ref" d' = Ok (Some (FStr (S"a,b"))) /\
              get_property KNode "image_type" d' = Ok (Some (FStr (S"qcow2"))).
 Proof. exact image_comma_example. Qed.
+
+(* the model of proposed fix C02-4 (completion flag true): a lone half is completed with the stored
+   other half, and refused loudly when there is none *)
+Example C02_pair_completion_model :
+  (exists d', set_property_with true KNode "image_ref" (Some (FStr (S"img2"))) w_node_img_props = Ok d' /\
+              get_property KNode "image_ref" d' = Ok (Some (FStr (S"img2"))) /\
+              get_property KNode "image_type" d' = Ok (Some (FStr (S"qcow2")))) /\
+  set_property_with true KNode "image_ref" (Some (FStr (S"img2"))) w_node_props = Err ExOther.
+Proof. exact completion_example. Qed.
+
+(* real keyword lists satisfy the hypotheses of the set_properties theorems *)
+Example C02_set_properties_nonvacuous :
+  let l := [("site", Some (FStr (S"UKY"))); ("image_ref", Some (FStr (S"a,b"))); ("image_type", Some (FStr (S"qcow2")))]%string in
+  completed_kvs node_completes_image_pair KNode l w_node_props = Ok l /\ kws_ok KNode l = true /\
+  values_ok KNode l = true /\
+  forallb (kw_plain KNode) [("site", FStr (S"UKY")); ("details", FStr (S"x"))]%string = true.
+Proof. vm_compute. repeat split; reflexivity. Qed.
 
 Example C02_unset_gateway :
   readable KService w_service_props = true /\
